@@ -175,7 +175,7 @@ def obligations(tier, seed):
     scfg = [("square_axes", 0, F(1, 2)), ("trapezoid", 0, F(1, 2)), ("rect_off", 0, F(1, 4)), ("square_axes", 1, F(1, 2)), ("trapezoid", -1, F(1, 2))]
     if tier == "thorough":
         scfg += [("quad", 0, F(1, 2)), ("tri", 0, F(1, 3)), ("pent", 0, F(1, 2)), ("tri", 2, F(3)), ("rect_off", -2, F(1, 4))]
-    scfg = [(a, b, c, False) for a, b, c in scfg] + [("trapezoid", 0, F(1, 2), True)] + ([("tri", 1, F(1, 3), True), ("quad", 0, F(1, 2), True)] if tier == "thorough" else [])
+    scfg = [(a, b, c, False) for a, b, c in scfg] + [("square_axes", 0, F(1, 2), True), ("rect_off", 0, F(1, 4), True)] + ([("trapezoid", 0, F(1, 2), True), ("tri", 1, F(1, 3), True), ("quad", 0, F(1, 2), True)] if tier == "thorough" else [])
     for pname, k, rr, cw in scfg:
         nm = "C14/ConvexSpheropolygon.%s%s.k%d.r%s" % ("clockwise." if cw else "", pname, k, str(rr).replace("/", "_"))
         obs.append((nm, (lambda nm=nm, pname=pname, k=k, rr=rr, cw=cw: run_e2(
